@@ -164,6 +164,40 @@ def once_resolution(ctx) -> None:
     ctx.check(stored in ('cls.Once(once) if once else cls.Once.EXACTLY', 'cls.Once.EXACTLY if not once else cls.Once(once)', 'cls.Once(once or cls.Once.EXACTLY)'), 'C10.once-resolution', fn, f'the stored semantic is Once(once) for any given value, EXACTLY for none (stored: `{stored}`)', sup[0] if sup else fn.node, key='ordinal:once')
 
 
+BOUND_REBIND_OK = {
+    ('forml.runtime._agent:Runner.train', 'lower'): 'incremental training: an absent lower bound defaults to the ordinal the last training reached (under `lower is None`)',
+}
+
+
+def bounds_pass_through(ctx) -> None:
+    """The window a caller asks for is the window that is read: on the way from the launcher to the reader (runtime agent, feed
+    loading, statement preparation) the parameters ``lower`` / ``upper`` are never re-bound - one reviewed default aside - and
+    the feed is asked for its extraction operator on *every* build with the bounds of that build (a memoised operator would
+    re-read the first window for every later one)."""
+    prog = ctx.prog
+    n = 0
+    for fn in prog.functions([m for m in prog.modules if m.startswith(('forml.io._input', 'forml.runtime._agent', 'forml.runtime._pad'))]):
+        mine = {p for p in fn.param_names if p in ('lower', 'upper')}
+        if not mine:
+            continue
+        n += 1
+        for st in core.walk_local(fn.node):
+            if isinstance(st, (ast.Assign, ast.AugAssign, ast.AnnAssign)):
+                targets = st.targets if isinstance(st, ast.Assign) else [st.target]
+                hit = {x.id for t in targets for x in ast.walk(t) if isinstance(x, ast.Name)} & mine
+                for name in sorted(hit):
+                    if (fn.ref, name) in BOUND_REBIND_OK and (f'{name} is None', True) in cfg.cguards(st, fn.node) or (fn.ref, name) in BOUND_REBIND_OK and (f'{name} is None', True) in [(t, p) for t, p in cfg.cguards(st, fn.node, siblings=True)]:
+                        ctx.ok('C10.bounds', fn, f'{name}: {BOUND_REBIND_OK[(fn.ref, name)]}', st)
+                        continue
+                    ctx.fail('C10.bounds', fn, f'the `{name}` bound of the requested window is re-bound on the way to the reader (`{core.src(st)[:70]}`)', st, key=f'rebind:{name}')
+    ctx.floor('C10.bounds', n, 6)
+    build = prog.func('forml.runtime._agent:Runner._build')
+    loads = [c for c in core.walk_local(build.node) if isinstance(c, ast.Call) and isinstance(c.func, ast.Attribute) and c.func.attr == 'load' and core.src(c.func.value) == 'self._feed']
+    ok = len(loads) == 1 and not cfg.cguards(loads[0], build.node, siblings=True) and [core.src(a) for a in loads[0].args[1:]] == ['lower', 'upper']
+    stored = [st for st in core.walk_local(build.node) if isinstance(st, ast.Assign) and any(isinstance(t, ast.Attribute) and core.src(t.value) == 'self' for t in st.targets)]
+    ctx.check(ok and not stored, 'C10.bounds', build, 'every build asks the feed for the extraction of *its* (lower, upper) and keeps nothing of it on the runner', loads[0] if loads else build.node, key='build:load')
+
+
 def feed_roles(ctx) -> None:
     """The feed keeps the two statements in their roles all the way into the drivers: in ``Feed.load`` the *apply* actor of the
     extraction operator is built from ``extract.apply`` and the *train* actor from ``extract.train`` (def-use closure over
@@ -312,6 +346,7 @@ def run(ctx) -> None:
     resolver = calls.Resolver(prog, tenv)
     extract_binding(ctx)
     feed_roles(ctx)
+    bounds_pass_through(ctx)
     prepared_call(ctx)
     where_construction(ctx, tenv)
     once_resolution(ctx)
